@@ -4,7 +4,6 @@ import (
 	"bytes"
 	"encoding"
 	"fmt"
-	"reflect"
 	"unicode"
 	"unicode/utf16"
 	"unicode/utf8"
@@ -99,15 +98,10 @@ func (d *unmarshalTextDecoder) DecodeStream(s *Stream, depth int64, p unsafe.Poi
 	return nil
 }
 
-// storeNull is what null does to a TextUnmarshaler: nothing, unless the type itself can be nil
-// (then it becomes nil, all of it — not just its first word).
-func (d *unmarshalTextDecoder) storeNull(p unsafe.Pointer) {
-	switch d.typ.Kind() {
-	case reflect.Ptr, reflect.Map, reflect.Slice, reflect.Interface:
-		typ := runtime.RType2Type(d.typ)
-		reflect.NewAt(typ, p).Elem().Set(reflect.Zero(typ))
-	}
-}
+// storeNull is what null does to a TextUnmarshaler: nothing. (p is the receiver: for a pointer type
+// that is the pointed-to value, not the pointer, so there is nothing here that could be set to nil;
+// a nil-able field or element is reset by the decoder of the pointer around it.)
+func (d *unmarshalTextDecoder) storeNull(_ unsafe.Pointer) {}
 
 func (d *unmarshalTextDecoder) Decode(ctx *RuntimeContext, cursor, depth int64, p unsafe.Pointer) (int64, error) {
 	buf := ctx.Buf
